@@ -200,43 +200,81 @@ func (f *ClosedSetsFinder) findClosedSetOfObjects(done bool) (err error) {
 }
 
 func (f *ClosedSetsFinder) enqueueWants(cont func(want string, c *objects.Commit) bool) (err error) {
-	alreadySeenCommits := map[string]struct{}{}
+	// smallest distance from a want at which each commit has been reached so far
+	seenDepth := map[string]int{}
 wantsLoop:
 	for want := range f.Wants {
-		commitList := list.New()
 		tableList := list.New()
+		// breadth first: a commit is first reached at its smallest distance from
+		// this want, and is expanded only once however many paths lead to it
+		reached := map[string]int{}
+		commits := map[string]*objects.Commit{}
 		q := list.New()
 		q.PushBack(commitDepth{[]byte(want), 0})
-		sums := [][]byte{}
 		for q.Len() > 0 {
 			cd := q.Remove(q.Front()).(commitDepth)
-			sums = append(sums, cd.sum)
-			if _, ok := alreadySeenCommits[string(cd.sum)]; ok {
+			key := string(cd.sum)
+			if _, ok := f.commons[key]; ok {
 				continue
 			}
-			if _, ok := f.commons[string(cd.sum)]; ok {
+			if _, ok := reached[key]; ok {
+				continue
+			}
+			prev, seen := seenDepth[key]
+			if seen && (f.depth == 0 || prev <= cd.depth) {
+				// an earlier want took care of it, at this distance or a smaller one
 				continue
 			}
 			c, err := objects.GetCommit(f.db, cd.sum)
 			if err != nil {
 				return err
 			}
-			commitList.PushFront(c)
-			if f.depth == 0 || cd.depth < f.depth {
-				tableList.PushFront(c.Table)
+			reached[key] = cd.depth
+			if !seen {
+				commits[key] = c
+				if cont != nil && cont(want, c) {
+					continue wantsLoop
+				}
 			}
-			if cont != nil && cont(want, c) {
-				continue wantsLoop
+			if (f.depth == 0 || cd.depth < f.depth) && (!seen || prev >= f.depth) {
+				tableList.PushFront(c.Table)
 			}
 			for _, p := range c.Parents {
 				q.PushBack(commitDepth{p, cd.depth + 1})
 			}
 		}
+		// list the commits found by this want so that parents precede children
+		commitList := list.New()
+		type visit struct {
+			c    *objects.Commit
+			next int
+		}
+		listed := map[string]struct{}{}
+		if c, ok := commits[want]; ok {
+			listed[want] = struct{}{}
+			stack := []*visit{{c: c}}
+			for len(stack) > 0 {
+				v := stack[len(stack)-1]
+				if v.next < len(v.c.Parents) {
+					p := string(v.c.Parents[v.next])
+					v.next++
+					if pc, ok := commits[p]; ok {
+						if _, ok := listed[p]; !ok {
+							listed[p] = struct{}{}
+							stack = append(stack, &visit{c: pc})
+						}
+					}
+					continue
+				}
+				commitList.PushBack(v.c)
+				stack = stack[:len(stack)-1]
+			}
+		}
 		// queue is exhausted mean everything is reachable from commons
 		f.commitLists = append(f.commitLists, commitList)
 		f.tableSumLists = append(f.tableSumLists, tableList)
-		for _, sum := range sums {
-			alreadySeenCommits[string(sum)] = struct{}{}
+		for key, depth := range reached {
+			seenDepth[key] = depth
 		}
 	}
 	f.Wants = map[string]struct{}{}
